@@ -1010,3 +1010,843 @@ func valueUsedErrorDiscarded(c *Ctx, r *Report, rule string, fns []*ssa.Function
 		r.OK(rule, "scope", "no-value-without-error-check", "-", fmt.Sprintf("%d calls returning (value, error) examined; none uses the value while dropping the error", n))
 	}
 }
+
+// ===== rules added after the second seeded round ========================================================
+
+// restoreCallbackDelegates: every successful return of a registered restore callback is dominated by a call into the
+// function that rebuilds the state (so an "empty payload" shortcut cannot skip the reset).
+func restoreCallbackDelegates(c *Ctx, r *Report, rule string, owner string, readerRecv string) {
+	ro := discoverRoles(c)
+	for _, f := range ro.restoreFns {
+		if recvTypeName(f) != owner {
+			continue
+		}
+		var loads []ssa.Instruction
+		eachInstr(f, func(i ssa.Instruction) {
+			if cl, ok := i.(*ssa.Call); ok {
+				if g := cl.Call.StaticCallee(); g != nil && recvTypeName(g) == readerRecv {
+					for _, p := range g.Params {
+						if isIOType(p.Type(), "Reader") {
+							loads = append(loads, i)
+						}
+					}
+				}
+			}
+		})
+		k := 0
+		for _, rt := range returnsOf(f) {
+			last := rt.Results[len(rt.Results)-1]
+			if !isNilConst(last) {
+				// returning the reader's own error value is delegation
+				continue
+			}
+			k++
+			ok := false
+			for _, l := range loads {
+				if instrDominates(l, rt.Return) {
+					ok = true
+				}
+			}
+			r.Check(ok, rule, fnName(f), fmt.Sprintf("success-return#%d", k), c.Pos(rt.Pos()), "the restore callback reports success only after the state reader ran (an empty snapshot payload means an empty state, not `nothing to do`)")
+		}
+		if len(loads) == 0 {
+			r.Bad(rule, fnName(f), "calls-reader", c.Pos(f.Pos()), "the restore callback never calls the state reader")
+		} else if k == 0 {
+			r.OK(rule, fnName(f), "calls-reader", c.Pos(f.Pos()), "the restore callback returns the reader's result")
+		}
+	}
+}
+
+// persistConsumesAllParts: in the persist function (receives HardState, Entries, Snapshot) the call consuming each of the
+// three parameters dominates the flushing return: none of them is written only under a condition on another.
+func persistConsumesAllParts(c *Ctx, r *Report, rule string) {
+	for _, f := range prodFuncs(c, "storage/wal") {
+		if f.Parent() != nil || f.Signature.Recv() == nil || len(f.Params) != 4 {
+			continue
+		}
+		if typeName(f.Params[1].Type()) != "HardState" || typeName(f.Params[3].Type()) != "Snapshot" {
+			continue
+		}
+		var flushRet *Ret
+		for _, rt := range returnsOf(f) {
+			if cl, ok := rt.Results[0].(*ssa.Call); ok && callID(&cl.Call).Name == "Flush" {
+				flushRet = rt
+			}
+		}
+		if flushRet == nil {
+			r.Unk(rule, fnName(f), "flush-return", c.Pos(f.Pos()), "no return of batch.Flush() found")
+			continue
+		}
+		for _, p := range f.Params[1:] {
+			ok := false
+			eachInstr(f, func(i ssa.Instruction) {
+				cl, isC := i.(*ssa.Call)
+				if !isC || cl.Call.StaticCallee() == nil || !modLocal(cl.Call.StaticCallee()) {
+					return
+				}
+				uses := false
+				for _, a := range cl.Call.Args {
+					if a == ssa.Value(p) {
+						uses = true
+					}
+				}
+				// a writer: transitively Sets into the batch
+				if uses && setsBatch(c, cl.Call.StaticCallee()) && instrDominates(i, flushRet.Return) {
+					ok = true
+				}
+			})
+			r.Check(ok, rule, fnName(f), "writes-"+p.Name(), c.Pos(f.Pos()), "the part `"+p.Name()+"` of a Ready is handed to its writer on every path to Flush (entries that arrive together with a snapshot are not dropped)")
+		}
+	}
+}
+
+func setsBatch(c *Ctx, g *ssa.Function) bool {
+	found := false
+	for h := range c.reachableFrom([]*ssa.Function{g}, false, true) {
+		eachInstr(h, func(i ssa.Instruction) {
+			if cc := asCall(i); cc != nil {
+				if id := callID(cc); id.Name == "Set" && id.Recv == "WriteBatch" {
+					found = true
+				}
+			}
+		})
+	}
+	return found
+}
+
+// logDeletionNotOnShutdown: the function that deletes a group's log is not reachable from the server's shutdown path.
+func logDeletionNotOnShutdown(c *Ctx, r *Report, rule string) {
+	stop := c.Method("", "Server", "Stop")
+	if stop == nil {
+		r.Unk(rule, "anndb.Server", "Stop", "-", "shutdown entry point not found")
+		return
+	}
+	reach := c.reachableFrom([]*ssa.Function{stop}, true, true)
+	bad := ""
+	n := 0
+	for f := range reach {
+		n++
+		eachInstr(f, func(i ssa.Instruction) {
+			if cc := asCall(i); cc != nil && callID(cc).Name == "DeleteGroup" {
+				bad = fnName(f) + " at " + c.InstrPos(i)
+			}
+		})
+	}
+	if bad != "" {
+		r.Bad(rule, fnName(stop), "shutdown-keeps-the-log", c.Pos(stop.Pos()), "a graceful shutdown reaches DeleteGroup ("+bad+"): the raft log, hard state and snapshot of every partition are wiped and acknowledged writes are gone after the restart")
+	} else {
+		r.OK(rule, fnName(stop), "shutdown-keeps-the-log", c.Pos(stop.Pos()), fmt.Sprintf("%d functions reachable from shutdown; none deletes a group's log", n))
+	}
+}
+
+// noGoroutinesInApply: an apply tree spawns no goroutine except the Ready loop of a group it starts.
+func noGoroutinesInApply(c *Ctx, r *Report, rule string, owner string) {
+	ro := discoverRoles(c)
+	var roots []*ssa.Function
+	for _, f := range ro.applyRoots {
+		if owner == "" || recvTypeName(f) == owner {
+			roots = append(roots, f)
+		}
+	}
+	reach := c.reachableFrom(roots, true, true)
+	bad, n := 0, 0
+	for f := range reach {
+		eachInstr(f, func(i ssa.Instruction) {
+			g, ok := i.(*ssa.Go)
+			if !ok {
+				return
+			}
+			n++
+			for _, l := range ro.readyLoops {
+				if g.Call.StaticCallee() == l {
+					return
+				}
+			}
+			bad++
+			r.Bad(rule, fnName(f), fmt.Sprintf("go-in-apply#%d", bad), c.Pos(g.Pos()), "the apply tree starts a goroutine: entries (or the items of one batch entry) are no longer applied in log order, so replicas and replays can disagree")
+		})
+	}
+	if bad == 0 {
+		r.OK(rule, owner, "apply-is-sequential", "-", fmt.Sprintf("%d functions in the apply tree, %d `go` statements (only Ready loops of started groups)", len(reach), n))
+	}
+}
+
+// hardStateAlwaysWritten: the hard-state writer returns without writing only for an empty hard state.
+func hardStateAlwaysWritten(c *Ctx, r *Report, rule string) {
+	w := newWal(c)
+	for _, f := range w.funcs {
+		if f.Parent() != nil || len(f.Params) != 3 || typeName(f.Params[2].Type()) != "HardState" {
+			continue
+		}
+		var set *ssa.Call
+		eachInstr(f, func(i ssa.Instruction) {
+			if cl, ok := i.(*ssa.Call); ok {
+				if id := callID(&cl.Call); id.Name == "Set" && id.Recv == "WriteBatch" {
+					set = cl
+				}
+			}
+		})
+		if set == nil {
+			r.Bad(rule, fnName(f), "writes-hard-state", c.Pos(f.Pos()), "the hard-state writer never writes")
+			continue
+		}
+		k := 0
+		for _, rt := range returnsOf(f) {
+			if !isNilConst(rt.Results[0]) {
+				continue
+			}
+			k++
+			ok := false
+			for _, ifi := range allIfs(f) {
+				if cl, isC := ifi.Cond.(*ssa.Call); isC && callID(&cl.Call).Name == "IsEmptyHardState" && guardedBy(rt.Block(), ifi, true) {
+					ok = true
+				}
+			}
+			r.Check(ok, rule, fnName(f), fmt.Sprintf("skip-return#%d", k), c.Pos(rt.Pos()), "the hard state is skipped only when it is empty (a commit-only update must reach the disk: after compaction a stale commit index below the snapshot makes raft panic on restart)")
+		}
+		if k == 0 {
+			r.OK(rule, fnName(f), "writes-hard-state", c.Pos(set.Pos()), "every return is the result of the write")
+		}
+	}
+}
+
+// walCacheLookupOrder: the snapshot cache answers FirstIndex before the memoized first index, unless every site that
+// stores the snapshot cache also refreshes the memoized first index.
+func walCacheOrdering(c *Ctx, r *Report, rule string) {
+	w := newWal(c)
+	keyOf := func(cc *ssa.CallCommon) string {
+		for _, a := range cc.Args {
+			if mi, ok := a.(*ssa.MakeInterface); ok {
+				if g := globalOf(mi.X); g != nil {
+					return strings.ToLower(g.Name())
+				}
+			}
+		}
+		return ""
+	}
+	isMapCall := func(i ssa.Instruction, name string) (*ssa.CallCommon, bool) {
+		cc := asCall(i)
+		if cc == nil {
+			return nil, false
+		}
+		id := callID(cc)
+		return cc, id.Recv == "Map" && id.Pkg == "sync" && id.Name == name
+	}
+	// (B) every snapshot-cache store is accompanied by a first-index refresh
+	allRefresh := true
+	for _, f := range w.funcs {
+		var snapStore ssa.Instruction
+		refreshed := false
+		eachInstr(f, func(i ssa.Instruction) {
+			if cc, ok := isMapCall(i, "Store"); ok {
+				k := keyOf(cc)
+				if strings.Contains(k, "snapshot") {
+					snapStore = i
+				}
+				if strings.Contains(k, "firstindex") {
+					refreshed = true
+				}
+			}
+			if cc, ok := isMapCall(i, "Delete"); ok && strings.Contains(keyOf(cc), "firstindex") {
+				refreshed = true
+			}
+		})
+		if snapStore != nil && !refreshed {
+			allRefresh = false
+		}
+	}
+	fi := c.Method("storage/wal", "badgerWAL", "FirstIndex")
+	if fi == nil {
+		r.Unk(rule, "storage/wal.badgerWAL", "FirstIndex", "-", "method not found")
+	} else {
+		var snapLoad, firstLoad ssa.Instruction
+		eachInstr(fi, func(i ssa.Instruction) {
+			if cc, ok := isMapCall(i, "Load"); ok {
+				k := keyOf(cc)
+				if strings.Contains(k, "snapshot") && snapLoad == nil {
+					snapLoad = i
+				}
+				if strings.Contains(k, "firstindex") && firstLoad == nil {
+					firstLoad = i
+				}
+			}
+		})
+		okOrder := snapLoad != nil && (firstLoad == nil || instrDominates(snapLoad, firstLoad))
+		r.Check(okOrder || allRefresh, rule, fnName(fi), "snapshot-cache-first", c.Pos(fi.Pos()), "FirstIndex consults the cached snapshot before the memoized first index (installing a snapshot does not refresh the memo: a stale memo would answer 1 where the reference says snapshot index + 1)")
+	}
+	// the old last index that decides truncation is read before the cache is overwritten
+	for _, f := range w.funcs {
+		var lastCall, store ssa.Instruction
+		eachInstr(f, func(i ssa.Instruction) {
+			if cl, ok := i.(*ssa.Call); ok && cl.Call.StaticCallee() != nil && cl.Call.StaticCallee().Name() == "LastIndex" && recvTypeName(cl.Call.StaticCallee()) == "badgerWAL" {
+				lastCall = i
+			}
+			if cc, ok := isMapCall(i, "Store"); ok && strings.Contains(keyOf(cc), "lastindex") && store == nil {
+				store = i
+			}
+		})
+		if lastCall == nil || store == nil {
+			continue
+		}
+		_, after := reachesAvoiding(f, store, func(z ssa.Instruction) bool { return z == lastCall }, nil)
+		r.Check(!after, rule, fnName(f), "old-last-index-read-first", c.InstrPos(lastCall), "the previous last index is read before the cache is overwritten with the new one (otherwise the truncation of a longer conflicting tail never happens)")
+	}
+}
+
+// visitedSetSeeded: the visited set guarding a traversal holds the seeds before the traversal starts.
+func visitedSetSeeded(c *Ctx, r *Report, rule string) {
+	x := newIdx(c)
+	if len(x.missing) > 0 {
+		return
+	}
+	for _, l := range x.edgeLoops() {
+		if l.key == nil {
+			continue
+		}
+		_, again := reachesAvoiding(l.fn, l.rng, func(i ssa.Instruction) bool { return i == ssa.Instruction(l.rng) }, nil)
+		if !again {
+			continue
+		}
+		// the set used by the guard on this loop's key
+		var set ssa.Value
+		for _, ifi := range allIfs(l.fn) {
+			if ex, ok := ifi.Cond.(*ssa.Extract); ok && ex.Index == 1 {
+				if lk, ok := ex.Tuple.(*ssa.Lookup); ok && lk.CommaOk && strip(lk.Index) == ssa.Value(l.key) {
+					set = lk.X
+				}
+			}
+		}
+		if set == nil {
+			continue
+		}
+		seeded := false
+		eachInstr(l.fn, func(i ssa.Instruction) {
+			mu, ok := i.(*ssa.MapUpdate)
+			if !ok || mu.Map != set || strip(mu.Key) == ssa.Value(l.key) {
+				return
+			}
+			_, fwd := reachesAvoiding(l.fn, i, func(z ssa.Instruction) bool { return z == ssa.Instruction(l.rng) }, nil)
+			_, back := reachesAvoiding(l.fn, l.rng, func(z ssa.Instruction) bool { return z == i }, nil)
+			if fwd && !back {
+				seeded = true
+			}
+		})
+		r.Check(seeded, rule, fnName(l.fn), fmt.Sprintf("visited-set-seeded#%d", l.order), c.Pos(l.rng.Pos()), "the starting vertices are put into the visited set before the traversal begins (otherwise a not yet expanded candidate is pushed again as somebody's neighbour: duplicates in the beam)")
+	}
+}
+
+// routingTableNotMutated: the partition table is never handed to something that reorders or overwrites it.
+func routingTableNotMutated(c *Ctx, r *Report, rule string) {
+	fParts := c.Field("storage", "Dataset", "partitions")
+	if fParts == nil {
+		return
+	}
+	bad := ""
+	n := 0
+	for _, f := range prodFuncs(c, "storage") {
+		eachInstr(f, func(i ssa.Instruction) {
+			switch y := i.(type) {
+			case *ssa.Call:
+				id := callID(&y.Call)
+				mutating := id.Pkg == "sort" || (id.Pkg == "math/rand" && id.Name == "Shuffle") || (id.Pkg == "builtin" && id.Name == "copy")
+				if !mutating {
+					return
+				}
+				for k, a := range y.Call.Args {
+					if id.Pkg == "builtin" && k != 0 {
+						continue
+					}
+					for _, o := range origins(a, originOpt{}) {
+						if fieldOfValue(o) == fParts {
+							bad = fnName(f) + " passes the partition table to " + id.String() + " at " + c.InstrPos(i)
+						}
+					}
+				}
+				n++
+			case *ssa.Store:
+				ia, ok := y.Addr.(*ssa.IndexAddr)
+				if !ok {
+					return
+				}
+				for _, o := range origins(ia.X, originOpt{}) {
+					if fieldOfValue(o) == fParts {
+						if fa, isF := strip(o).(*ssa.UnOp); isF {
+							if f2, isFA := fa.X.(*ssa.FieldAddr); isFA {
+								if al, isA := strip(f2.X).(*ssa.Alloc); isA && al.Heap {
+									return // constructor filling its own table
+								}
+							}
+						}
+						bad = fnName(f) + " overwrites an element of the partition table at " + c.InstrPos(i)
+					}
+				}
+			}
+		})
+	}
+	if bad != "" {
+		r.Bad(rule, "storage.Dataset", "partition-table-immutable", "-", bad+": the index into this table *is* the routing result, so after the first such call the node routes ids differently from every other node and from itself before")
+	} else {
+		r.OK(rule, "storage.Dataset", "partition-table-immutable", "-", "the partition table is filled by the constructor only and never sorted, shuffled or copied into")
+	}
+}
+
+// batchItemsProcessedOneByOne: in an apply function that looks an item up and re-inserts it, lookup and re-insert of one
+// item belong to the same loop (state resolved for all items up front is stale when an id occurs twice).
+func batchItemsProcessedOneByOne(c *Ctx, r *Report, rule string) {
+	for _, f := range prodFuncs(c, "storage") {
+		if recvTypeName(f) != "partition" {
+			continue
+		}
+		var gets, inserts []*ssa.Call
+		eachInstr(f, func(i ssa.Instruction) {
+			if cl, ok := i.(*ssa.Call); ok && cl.Call.StaticCallee() != nil && recvTypeName(cl.Call.StaticCallee()) == "Hnsw" {
+				switch cl.Call.StaticCallee().Name() {
+				case "GetVertex":
+					gets = append(gets, cl)
+				case "Insert":
+					inserts = append(inserts, cl)
+				}
+			}
+		})
+		if len(gets) == 0 || len(inserts) == 0 {
+			continue
+		}
+		for _, g := range gets {
+			_, loops := reachesAvoiding(f, g, func(z ssa.Instruction) bool { return z == ssa.Instruction(g) }, nil)
+			if !loops {
+				continue // single-item update
+			}
+			ok := false
+			for _, in := range inserts {
+				// same loop: the insert is reachable from the lookup without the lookup being executed again, and vice versa the
+				// lookup is reachable from the insert (next iteration)
+				_, fwd := reachesAvoiding(f, g, func(z ssa.Instruction) bool { return z == ssa.Instruction(in) }, func(z ssa.Instruction) bool { return z == ssa.Instruction(g) })
+				_, back := reachesAvoiding(f, in, func(z ssa.Instruction) bool { return z == ssa.Instruction(g) }, nil)
+				if fwd && back {
+					ok = true
+				}
+			}
+			r.Check(ok, rule, fnName(f), "lookup-and-reinsert-in-one-iteration", c.Pos(g.Pos()), "each item of a batch update is looked up, removed and re-inserted before the next item is touched (an id occurring twice sees the first occurrence's result)")
+		}
+	}
+}
+
+// proposerOwnsStructuredFields: the creation proposer overwrites, on every path to the marshalled proposal, the
+// variable-length fields of the client's message that the apply side indexes and parses (ids, partition table).
+func proposerOwnsStructuredFields(c *Ctx, r *Report, rule string) {
+	n := 0
+	for _, f := range prodFuncs(c, "storage") {
+		if f.Parent() != nil {
+			continue
+		}
+		var ds *ssa.Parameter
+		for _, p := range f.Params {
+			if typeName(p.Type()) == "Dataset" && strings.HasSuffix(typePkg(p.Type()), "anndb/protobuf") {
+				ds = p
+			}
+		}
+		if ds == nil {
+			continue
+		}
+		var marshal ssa.Instruction
+		proposes := false
+		eachInstr(f, func(i ssa.Instruction) {
+			cc := asCall(i)
+			if cc == nil {
+				return
+			}
+			id := callID(cc)
+			if id.Name == "Propose" {
+				proposes = true
+			}
+			if id.Name == "Marshal" && marshal == nil {
+				for _, a := range cc.Args {
+					for _, o := range origins(a, originOpt{}) {
+						if o == ssa.Value(ds) {
+							marshal = i
+						}
+					}
+				}
+			}
+		})
+		if !proposes || marshal == nil {
+			continue
+		}
+		st := ds.Type().Underlying().(*types.Pointer).Elem().Underlying().(*types.Struct)
+		for k := 0; k < st.NumFields(); k++ {
+			fld := st.Field(k)
+			if strings.HasPrefix(fld.Name(), "XXX_") {
+				continue
+			}
+			if _, isSlice := fld.Type().Underlying().(*types.Slice); !isSlice {
+				continue
+			}
+			n++
+			ok := false
+			eachInstr(f, func(i ssa.Instruction) {
+				s, isS := i.(*ssa.Store)
+				if !isS {
+					return
+				}
+				fa, isF := s.Addr.(*ssa.FieldAddr)
+				if isF && fa.X == ssa.Value(ds) && fa.Field == k && instrDominates(i, marshal) {
+					ok = true
+				}
+			})
+			r.Check(ok, rule, fnName(f), "overwrites-"+fld.Name(), c.Pos(marshal.Pos()), "the field "+fld.Name()+" of the client's message is replaced by server-generated content on every path to the proposal: the apply side indexes it by PartitionCount and parses its ids, so a client-supplied value that is too short or malformed makes every replica panic (or store a nil dataset) on apply and on every replay")
+		}
+	}
+	if n == 0 {
+		r.Unk(rule, "storage", "creation-proposer", "-", "no function that marshals and proposes a client-supplied *pb.Dataset was found")
+	}
+}
+
+// restoreNotSkippedOnEmptyPayload: a call of a registered restore callback is never conditional on the length of the
+// payload it would receive (an empty payload is the snapshot of an empty state and must be installed like any other).
+func restoreNotSkippedOnEmptyPayload(c *Ctx, r *Report, rule string) {
+	n := 0
+	for _, f := range prodFuncs(c, "storage/raft", "storage") {
+		eachInstr(f, func(i ssa.Instruction) {
+			cl, ok := i.(*ssa.Call)
+			if !ok || cl.Call.IsInvoke() || cl.Call.StaticCallee() != nil || len(cl.Call.Args) != 1 {
+				return
+			}
+			fld := fieldOfValue(cl.Call.Value)
+			if fld == nil || !strings.Contains(strings.ToLower(fld.Name()), "snapshot") || !strings.Contains(strings.ToLower(fld.Name()), "process") {
+				return
+			}
+			n++
+			payload := map[ssa.Value]bool{}
+			for _, o := range origins(cl.Call.Args[0], originOpt{}) {
+				payload[o] = true
+			}
+			payload[strip(cl.Call.Args[0])] = true
+			bad := ""
+			for _, ifi := range allIfs(f) {
+				if !guardedBy(cl.Block(), ifi, true) && !guardedBy(cl.Block(), ifi, false) {
+					continue
+				}
+				for _, o := range condLeaves(ifi.Cond, 0) {
+					lc, isC := o.(*ssa.Call)
+					if !isC || !callID(&lc.Call).is("builtin", "", "len") {
+						continue
+					}
+					if payload[strip(lc.Call.Args[0])] {
+						bad = c.InstrPos(ifi)
+					}
+					for _, o2 := range origins(lc.Call.Args[0], originOpt{}) {
+						if payload[o2] {
+							bad = c.InstrPos(ifi)
+						}
+					}
+				}
+			}
+			r.Check(bad == "", rule, fnName(f), fmt.Sprintf("restore-call#%s", fld.Name()), c.Pos(cl.Pos()), "the restore callback is invoked whatever the length of the payload (test at "+bad+"): an empty payload is the snapshot of an empty catalogue — skipping it leaves deleted datasets listed and their partitions serving on a follower that catches up by snapshot")
+		})
+	}
+	if n == 0 {
+		r.Unk(rule, "storage/raft", "restore-call", "-", "no call through a registered restore-callback field found")
+	}
+}
+
+// condLeaves: the non-operator values a condition is computed from.
+func condLeaves(v ssa.Value, depth int) []ssa.Value {
+	if depth > 6 {
+		return []ssa.Value{v}
+	}
+	switch y := v.(type) {
+	case *ssa.BinOp:
+		return append(condLeaves(y.X, depth+1), condLeaves(y.Y, depth+1)...)
+	case *ssa.UnOp:
+		if y.Op == token.NOT {
+			return condLeaves(y.X, depth+1)
+		}
+	case *ssa.Phi:
+		var out []ssa.Value
+		for _, e := range y.Edges {
+			out = append(out, condLeaves(e, depth+1)...)
+		}
+		return out
+	}
+	return []ssa.Value{strip(v)}
+}
+
+// partitionMetaAliasesDatasetMeta: replica-set changes are written through partition.meta only; List and the catalogue
+// snapshot read Dataset.meta. They agree only if the constructor hands each partition the element of the very message
+// it stores in Dataset.meta.
+func partitionMetaAliasesDatasetMeta(c *Ctx, r *Report, rule string) {
+	fMeta := c.Field("storage", "Dataset", "meta")
+	ctor := c.Func("storage", "newDataset")
+	if fMeta == nil || ctor == nil {
+		r.Unk(rule, "storage.newDataset", "meta-aliasing", "-", "constructor or field not found")
+		return
+	}
+	var stored ssa.Value
+	for _, st := range fieldStoresIn(ctor, fMeta) {
+		stored = strip(st.Val)
+	}
+	if stored == nil {
+		r.Bad(rule, fnName(ctor), "meta-aliasing", c.Pos(ctor.Pos()), "the constructor does not store Dataset.meta")
+		return
+	}
+	n := 0
+	eachInstr(ctor, func(i ssa.Instruction) {
+		cl, ok := i.(*ssa.Call)
+		if !ok || cl.Call.StaticCallee() == nil || fnPkgPath(cl.Call.StaticCallee()) != fnPkgPath(ctor) {
+			return
+		}
+		for _, a := range cl.Call.Args {
+			if typeName(a.Type()) != "Partition" {
+				continue
+			}
+			n++
+			ok := false
+			for _, o := range origins(a, originOpt{}) {
+				// o: load of &base.Partitions[i]
+				l, isL := loadOf(strip(o))
+				if !isL {
+					continue
+				}
+				ia, isI := l.(*ssa.IndexAddr)
+				if !isI {
+					continue
+				}
+				sl, isL2 := loadOf(strip(ia.X))
+				if !isL2 {
+					continue
+				}
+				if fa, isF := sl.(*ssa.FieldAddr); isF && strip(fa.X) == stored {
+					ok = true
+				}
+			}
+			r.Check(ok, rule, fnName(ctor), fmt.Sprintf("meta-aliasing#%d", n), c.Pos(cl.Pos()), "the partition descriptor handed to "+cl.Call.StaticCallee().Name()+" is an element of the message stored in Dataset.meta (replica changes are written through partition.meta; List and the catalogue snapshot read Dataset.meta — with a copy they drift apart, and snapshot+tail no longer equals full replay)")
+		}
+	})
+	if n == 0 {
+		r.Unk(rule, fnName(ctor), "meta-aliasing", c.Pos(ctor.Pos()), "no partition constructor call found")
+	}
+}
+
+// errorActedOn: the error value e (a call's own result, not a φ) is either forwarded by a return, or tested against nil
+// such that on the non-nil side every path to the function's exit passes an instruction accepted by act.
+func errorActedOn(f *ssa.Function, e ssa.Value, act func(i ssa.Instruction, e ssa.Value) bool) (bool, string) {
+	for _, rt := range returnsOf(f) {
+		if len(rt.Results) > 0 && strip(rt.Results[len(rt.Results)-1]) == e {
+			return true, "forwarded by a return"
+		}
+	}
+	tested := false
+	for _, ifi := range allIfs(f) {
+		b, ok := ifi.Cond.(*ssa.BinOp)
+		if !ok || (b.Op != token.NEQ && b.Op != token.EQL) {
+			continue
+		}
+		if !((strip(b.X) == e && isNilConst(b.Y)) || (strip(b.Y) == e && isNilConst(b.X))) {
+			continue
+		}
+		tested = true
+		nonNil := succOn(ifi, b.Op == token.NEQ)
+		if len(nonNil.Instrs) == 0 {
+			continue
+		}
+		_, escapes := reachesAvoidingFrom(f, nonNil.Instrs[0], func(i ssa.Instruction) bool {
+			_, isRet := i.(*ssa.Return)
+			return isRet && !act(i, e)
+		}, func(i ssa.Instruction) bool { return act(i, e) })
+		if !escapes {
+			return true, "tested; the non-nil side always acts"
+		}
+	}
+	if tested {
+		return false, "on the non-nil side of its test a path reaches the end of the function without reporting it"
+	}
+	return false, "it is never tested by itself (only merged with other values, overwritten, or dropped)"
+}
+
+// callErrors: (call, error value) for every call in f whose callee satisfies pred and whose last result is an error.
+func callErrors(f *ssa.Function, pred func(*ssa.CallCommon) bool) [][2]ssa.Value {
+	var out [][2]ssa.Value
+	eachInstr(f, func(i ssa.Instruction) {
+		cl, ok := i.(*ssa.Call)
+		if !ok || !pred(&cl.Call) {
+			return
+		}
+		res := cl.Call.Signature().Results()
+		if res.Len() == 0 || !isErrorType(res.At(res.Len()-1).Type()) {
+			return
+		}
+		if res.Len() == 1 {
+			out = append(out, [2]ssa.Value{cl, cl})
+			return
+		}
+		var e ssa.Value
+		for _, u := range *cl.Referrers() {
+			if ex, ok := u.(*ssa.Extract); ok && ex.Index == res.Len()-1 {
+				e = ex
+			}
+		}
+		out = append(out, [2]ssa.Value{cl, e})
+	})
+	return out
+}
+
+// sizeErrorsPropagate: every production caller of a function on the size chain (anything that transitively asks a
+// partition for its size and can fail) reports that call's own error.
+func sizeErrorsPropagate(c *Ctx, r *Report, rule string) {
+	root := c.Method("storage", "Dataset", "SizeInfo")
+	if root == nil {
+		r.Unk(rule, "storage.Dataset", "SizeInfo", "-", "method not found")
+		return
+	}
+	chain := map[*ssa.Function]bool{root: true}
+	all := prodFuncs(c, "storage", "services")
+	for changed := true; changed; {
+		changed = false
+		for _, f := range all {
+			if chain[f] || f.Parent() != nil {
+				continue
+			}
+			res := f.Signature.Results()
+			if res.Len() == 0 || !isErrorType(res.At(res.Len()-1).Type()) {
+				continue
+			}
+			eachInstr(f, func(i ssa.Instruction) {
+				if cc := asCall(i); cc != nil && cc.StaticCallee() != nil && chain[cc.StaticCallee()] && !chain[f] {
+					chain[f] = true
+					changed = true
+				}
+			})
+		}
+	}
+	n := 0
+	for _, f := range all {
+		cnt := 0
+		for _, ce := range callErrors(f, func(cc *ssa.CallCommon) bool { return cc.StaticCallee() != nil && chain[cc.StaticCallee()] }) {
+			n++
+			cnt++
+			cl := ce[0].(*ssa.Call)
+			cons := fmt.Sprintf("size-error#%d-%s", cnt, cl.Call.StaticCallee().Name())
+			if ce[1] == nil {
+				r.Bad(rule, fnName(f), cons, c.Pos(cl.Pos()), "the error of "+cl.Call.StaticCallee().Name()+" is discarded: a size that could not be obtained is reported as a number")
+				continue
+			}
+			ok, why := errorActedOn(f, ce[1], func(i ssa.Instruction, e ssa.Value) bool {
+				rt, isRet := i.(*ssa.Return)
+				if !isRet || len(rt.Results) == 0 {
+					return false
+				}
+				return !isNilConst(rt.Results[len(rt.Results)-1])
+			})
+			if ok {
+				r.OK(rule, fnName(f), cons, c.Pos(cl.Pos()), "the error of "+cl.Call.StaticCallee().Name()+" is "+why)
+			} else {
+				r.Bad(rule, fnName(f), cons, c.Pos(cl.Pos()), "the error of "+cl.Call.StaticCallee().Name()+" does not fail the call: "+why+" — the caller gets success and a size smaller than the sum of the partitions")
+			}
+		}
+	}
+	if n == 0 {
+		r.Unk(rule, "storage", "size-chain", "-", "no caller of the size chain found")
+	}
+}
+
+// workerErrorsSent: in the remote size worker every fallible call's own error is sent to the collector.
+func workerErrorsSent(c *Ctx, r *Report, rule string, worker *ssa.Function) {
+	k := 0
+	for _, ce := range callErrors(worker, func(cc *ssa.CallCommon) bool { return true }) {
+		cl := ce[0].(*ssa.Call)
+		k++
+		cons := fmt.Sprintf("worker-error#%d-%s", k, callID(&cl.Call).Name)
+		if ce[1] == nil {
+			r.Bad(rule, fnName(worker), cons, c.Pos(cl.Pos()), "the error of "+callID(&cl.Call).Name+" is discarded")
+			continue
+		}
+		ok, why := errorActedOn(worker, ce[1], func(i ssa.Instruction, e ssa.Value) bool {
+			s, isS := i.(*ssa.Send)
+			return isS && strip(s.X) == e
+		})
+		r.Check(ok, rule, fnName(worker), cons, c.Pos(cl.Pos()), "the error of "+callID(&cl.Call).Name+" reaches the collector ("+why+"): otherwise the worker ends silently, the collector counts fewer messages than partitions or a smaller sum, and the call succeeds")
+	}
+}
+
+// snapshotCarriesMembership: a compaction snapshot is only written when the membership (ConfState) is known.
+func snapshotCarriesMembership(c *Ctx, r *Report, rule string) {
+	n := 0
+	for _, f := range prodFuncs(c, "storage/wal") {
+		if f.Parent() != nil {
+			continue
+		}
+		var cs *ssa.Parameter
+		for _, p := range f.Params {
+			if typeName(p.Type()) == "ConfState" {
+				cs = p
+			}
+		}
+		if cs == nil || f.Signature.Results().Len() != 2 {
+			continue
+		}
+		// the nil test of the parameter
+		var test *ssa.If
+		nonNilOnTrue := false
+		for _, ifi := range allIfs(f) {
+			if b, ok := ifi.Cond.(*ssa.BinOp); ok && (b.Op == token.EQL || b.Op == token.NEQ) && strip(b.X) == ssa.Value(cs) && isNilConst(b.Y) {
+				// the test that guards the returns, not the one that guards the copy
+				for _, rt := range returnsOf(f) {
+					if guardedBy(rt.Block(), ifi, b.Op == token.NEQ) {
+						test, nonNilOnTrue = ifi, b.Op == token.NEQ
+					}
+				}
+			}
+		}
+		k := 0
+		for _, rt := range returnsOf(f) {
+			last := rt.Results[len(rt.Results)-1]
+			if c, isC := last.(*ssa.Const); isC && c.Value == nil {
+				// plain nil
+			} else if cl, isCall := last.(*ssa.Call); !isCall || callID(&cl.Call).Name != "Flush" {
+				continue
+			}
+			k++
+			n++
+			ok := test != nil && guardedBy(rt.Block(), test, nonNilOnTrue)
+			r.Check(ok, rule, fnName(f), fmt.Sprintf("snapshot-written#%d", k), c.Pos(rt.Pos()), "the snapshot is written and the log compacted only when the membership is known (ConfState parameter tested non-nil on this path): a snapshot with an empty ConfState restores a group with no peers — the member can never campaign or be reached again after the next restart")
+		}
+	}
+	if n == 0 {
+		r.Unk(rule, "storage/wal", "CreateSnapshot", "-", "no snapshot-creating function with a *ConfState parameter found")
+	}
+}
+
+// guardedMapNotHandedOut: no method returns the mutex-guarded map itself (callers would read and write shared storage
+// outside the lock, outside the log).
+func guardedMapNotHandedOut(c *Ctx, r *Report, rule string, pkg, typ, field string) {
+	fld := c.Field(pkg, typ, field)
+	if fld == nil {
+		r.Unk(rule, pkg+"."+typ, field, "-", "field not found")
+		return
+	}
+	bad := ""
+	n := 0
+	for _, f := range prodFuncs(c, pkg) {
+		if recvTypeName(f) != typ {
+			continue
+		}
+		for _, rt := range returnsOf(f) {
+			for _, v := range rt.Results {
+				if _, isMap := v.Type().Underlying().(*types.Map); !isMap {
+					continue
+				}
+				n++
+				for _, o := range origins(v, originOpt{}) {
+					if fieldOfValue(o) == fld {
+						bad = fnName(f) + " at " + c.Pos(rt.Pos())
+					}
+				}
+			}
+		}
+	}
+	if bad != "" {
+		r.Bad(rule, pkg+"."+typ, "map-"+field+"-not-handed-out", "-", bad+" returns the guarded map itself: callers (the join handler adds the joiner to the map it got) then write the member's address book outside the lock and outside the log — a node listed on one member only, gone after restart")
+	} else {
+		r.OK(rule, pkg+"."+typ, "map-"+field+"-not-handed-out", "-", fmt.Sprintf("%d map-typed return value(s); none is the field itself", n))
+	}
+}
